@@ -297,7 +297,8 @@ def parse_single_name_into_parts(name, strict=True):
                         specialchar = True
 
                     # Can we use it to determine the case?
-                    elif (case == -1) and escaped.isalpha():
+                    # (not within an ordinary braced expression, which is caseless)
+                    elif (case == -1) and escaped.isalpha() and (not level or specialchar):
                         if escaped.isupper():
                             case = 1
                         else:
